@@ -56,7 +56,10 @@ WPaths == [nodes |-> <<
   \* links whose target lives in another directory, or nowhere: their own location is what dir / absdir decompose
   PNode(13, 1, "symlink", <<"l","n","k">>, 0) @@ [target |-> 3, tstyle |-> "rel"],
   PNode(14, 8, "symlink", <<"a","b","s","l">>, 0) @@ [target |-> 11, tstyle |-> "abs"],
-  PNode(15, 1, "symlink", <<"d","a","n","g">>, 0) @@ [target |-> -1, tstyle |-> "abs"] >>]
+  PNode(15, 1, "symlink", <<"d","a","n","g">>, 0) @@ [target |-> -1, tstyle |-> "abs"],
+  \* entries that are neither files nor directories (their content size is what lstat says: 0), and a link to an empty file
+  PNode(16, 0, "fifo", <<"p","i","p","e">>, 0), PNode(17, 1, "socket", <<"s","o","c","k">>, 0),
+  PNode(18, 0, "symlink", <<"l","z">>, 0) @@ [target |-> 6, tstyle |-> "rel"] >>]
 
 (* ---- extension classes ---- *)
 AllExts == LET RECURSIVE Cat(_) Cat(i) == IF i > Len(Classes) THEN <<>> ELSE DefaultLists[Classes[i]] \o Cat(i + 1) IN Cat(1)
@@ -119,7 +122,8 @@ WOs == [nodes |-> <<
 Kinds == {"modes", "zipmodes", "paths", "extclass", "content", "osattrs"}
 Init == kind = "" /\ variant = "" /\ phase = "start"
 Choose == /\ phase = "start" /\ kind' \in Kinds
-          /\ variant' \in (IF kind' = "extclass" THEN {"default", "override", "own-default-file"} ELSE {""})      \* (own-default-file: the complete configuration the program writes for a new user)
+          /\ variant' \in (IF kind' = "extclass" THEN {"default", "override", "own-default-file"}
+                           ELSE IF kind' = "osattrs" THEN {"", "east3", "dst"} ELSE {""})                       \* (osattrs: the time zone the times are shown in)      \* (own-default-file: the complete configuration the program writes for a new user)
           /\ phase' = "done"
 Next == Choose
 Spec == Init /\ [][Next]_vars
@@ -139,13 +143,13 @@ OverrideCfg == [debug |-> FALSE, is_image |-> <<".foo">>, is_archive |-> <<".zip
 Scenario == [prop |-> "C04", kind |-> kind, class |-> kind \o (IF variant = "" THEN "" ELSE "/" \o variant),
              world |-> CASE kind = "modes" -> "WModes" [] kind = "zipmodes" -> "WZip" [] kind = "paths" -> "WPaths"
                          [] kind = "extclass" -> "WExt" [] kind = "content" -> "WContent" [] kind = "osattrs" -> "WOs",
-             cols |-> Cols, digests |-> (kind = "content"),
+             cols |-> Cols, digests |-> (kind = "content"), off |-> (CASE variant = "east3" -> 10800 [] variant = "dst" -> 1 [] OTHER -> 0),
              lists |-> IF variant = "override" THEN [DefaultLists EXCEPT !.is_image = << <<".","f","o","o">> >>,
                                                                           !.is_archive = << <<".","z","i","p","x">>, <<".","g","z">> >>]
                        ELSE DefaultLists,
              env |-> IF variant = "own-default-file" THEN [tz |-> "UTC", cwd |-> 0, config |-> [own_default |-> TRUE]]
                      ELSE IF variant = "override" THEN [tz |-> "UTC", cwd |-> 0, config |-> OverrideCfg]
-                     ELSE [tz |-> "UTC", cwd |-> 0, config |-> [debug |-> FALSE]],
+                     ELSE [tz |-> (CASE variant = "east3" -> "Etc/GMT-3" [] variant = "dst" -> "EST5EDT,M3.2.0,M11.1.0" [] OTHER -> "UTC"), cwd |-> 0, config |-> [debug |-> FALSE]],
              runs |-> << [tag |-> "q", ncols |-> Len(Cols), timeout |-> 60,
                           argv |-> << "select " \o JoinCols(Cols, 1) \o " from '.'" \o (IF kind = "zipmodes" THEN " archives" ELSE "") \o " into list" >>] >>]
 EmitWorld == (phase = "start") =>
